@@ -43,13 +43,24 @@ MapSt  == {"absent", "ok", "emptyMap", "null", "int", "str", "seq", "bool", "dup
            "badNameEmpty", "badNameDash", "nameLabel"}
 Item   == {"map", "null", "emptyMap", "str", "int", "seq"}
 
+\* template texts of a label / annotation value:
+\*   badTemplate     {{ $nope }}            parses with an error (undefined variable)
+\*   unclosedAction  {{ $labels.instance    action opened, never closed
+\*   unclosedComment {{/* TODO              comment opened, never closed
+\*   unclosedBrace   {{ $value }            closing delimiter incomplete
+\*   execTemplate    {{ .Nope }}            parses, fails only when executed
+TemplateSt == {"badTemplate", "unclosedAction", "unclosedComment", "unclosedBrace", "execTemplate"}
+\* text/template.Parse fails on these (both pint's ParseTest and rulefmt's testTemplateParsing see that)
+TemplateParseErr(st) == st \in {"badTemplate", "unclosedAction", "unclosedComment", "unclosedBrace"}
+
 GFields == {"name", "interval", "query_offset", "limit", "labels", "rules", "partial_response_strategy", "unknown"}
 RFields == {"record", "alert", "expr", "merge", "for", "keep_firing_for", "labels", "annotations", "unknown"}
 
 GDom(f) == CASE f = "name"         -> Scalar \cup {"dupOther"}
              [] f = "interval"     -> Scalar \cup {"badDur"}
              [] f = "query_offset" -> Scalar \cup {"badDur"}
-             [] f = "limit"        -> {"absent", "ok", "empty", "str", "float", "neg", "bool", "seq", "map", "null", "dup"}
+             \* quotedInt: a numeric string ("10") - a string for YAML, not an integer
+             [] f = "limit"        -> {"absent", "ok", "empty", "str", "quotedInt", "float", "neg", "bool", "seq", "map", "null", "dup"}
              [] f = "labels"       -> MapSt
              [] f = "rules"        -> {"ok", "absent", "null", "emptyList", "int", "str", "map", "bool", "dup"}
              [] f = "partial_response_strategy" -> {"absent", "ok"}
@@ -60,8 +71,8 @@ RDom(f) == CASE f = "record"          -> Scalar \cup {"braces", "space"}
              [] f = "expr"            -> Scalar \cup {"badPromql"}
              [] f = "for"             -> Scalar \cup {"badDur", "zero"}
              [] f = "keep_firing_for" -> Scalar \cup {"badDur", "zero"}
-             [] f = "labels"          -> MapSt \cup {"badTemplate", "execTemplate", "valueTemplate"}
-             [] f = "annotations"     -> MapSt \cup {"badTemplate", "execTemplate"}
+             [] f = "labels"          -> MapSt \cup TemplateSt \cup {"valueTemplate"}
+             [] f = "annotations"     -> MapSt \cup TemplateSt
              [] f = "unknown"         -> {"absent", "present"}
              \* a merge key with an inline mapping, written right after expr:  <<: {}   or   <<: {for: 1x}
              [] f = "merge"           -> {"absent", "inlineEmpty", "inlineFor"}
@@ -266,7 +277,8 @@ PintChecks(d) ==
       alerting == Present(r.alert)
       syntax == r.expr = "badPromql" IN
   (IF syntax THEN {"check:syntax"} ELSE {})
-  \cup (IF alerting /\ ~syntax /\ (r.labels \in {"badTemplate", "execTemplate"} \/ r.annotations \in {"badTemplate", "execTemplate"})
+  \* checkTemplateSyntax: ParseTest, then Expand - every text that fails to parse or to execute is Fatal
+  \cup (IF alerting /\ ~syntax /\ (r.labels \in TemplateSt \/ r.annotations \in TemplateSt)
         THEN {"check:template"} ELSE {})
   \cup (IF alerting /\ ~syntax /\ r.labels = "valueTemplate" THEN {"check:template:value"} ELSE {})
   \cup (IF alerting /\ (r.for \in {"badDur", "empty", "null", "nullWord"} \/ r.keep_firing_for \in {"badDur", "empty", "null", "nullWord"})
@@ -326,7 +338,7 @@ PromRuleOK(d) ==
        /\ ~NameInvalid(r.labels, d.names) /\ r.labels # "nameLabel"
        /\ ~NameInvalid(r.annotations, d.names)
        \* testTemplateParsing: alerting rules only, parse errors only
-       /\ (alrSet => r.labels # "badTemplate" /\ r.annotations # "badTemplate")
+       /\ (alrSet => ~TemplateParseErr(r.labels) /\ ~TemplateParseErr(r.annotations))
 
 PromGroupOK(d) ==
   LET g == d.g IN
